@@ -766,6 +766,12 @@ func (c *bufComp) Run(h *hlib.History) ([]hlib.Mon, bool) {
 		if x.bodyID%3 == 0 {
 			req.Header.Set("Content-Type", "application/x-www-form-urlencoded") // a form submission: the body is still only bytes to the buffer
 		}
+		if x.chunked == 1 && x.url%4 == 2 {
+			// a chunked upload that announces a trailer and sends it after the last chunk (a checksum): the buffer has the
+			// whole body all the same, and declares its true length
+			req.Trailer = http.Header{"X-Body-Sum": []string{"c0ffee"}}
+			hlib.Count("uploads_with_a_trailer", 1)
+		}
 		status := int64(-1)
 		var respHdr http.Header
 		var respBody []byte
@@ -1016,6 +1022,31 @@ func (c *bufComp) Run(h *hlib.History) ([]hlib.Mon, bool) {
 		first := strings.SplitN(string(answer), "\r\n", 2)[0]
 		for _, in := range st.invs {
 			mons = append(mons, hlib.Mon{Prop: "C06", Step: len(xs) - 1, Msg: fmt.Sprintf("truncated upload %d (the client announced more than it sent, then stopped sending): the handler was invoked with ContentLength %d, TransferEncoding %v and read %d bytes, as if that were the client's request (answer to the client: %q)", k, in.cl, in.te, len(in.read), first)})
+		}
+	}
+	// requests as a middleware in front may hand them on in-process: a body longer than the declared length (a
+	// decompressing front that left Content-Length alone), and a body of undeclared length with ContentLength 0 (what
+	// http.NewRequest makes of a plain reader). The handler gets every byte and the true length, or — over the limit — nothing.
+	for k := 0; k < 2; k++ {
+		payload := genBody(int64(900+k), 40+int64(k)*25)
+		req := httptest.NewRequest(http.MethodPost, "http://front.example/p/1?q=1", nil)
+		req.Body = io.NopCloser(struct{ io.Reader }{bytes.NewReader(payload)})
+		req.ContentLength = int64(10 - 10*k) // 10, then 0
+		st := &exchState{x: exch{method: 1, url: 1, cut: -1, scripts: [][]ev{{{3, -1, 0}, {1, 200, 0}}}}, done: make(chan struct{})}
+		cur = st
+		rec := httptest.NewRecorder()
+		func() {
+			defer func() { _ = recover() }()
+			buf.ServeHTTP(rec, req)
+		}()
+		hlib.Count("in_process_requests_with_odd_lengths", 1)
+		over := effLimit(cfg.maxReq) > 0 && int64(len(payload)) > cfg.maxReq
+		for _, in := range st.invs {
+			if over {
+				mons = append(mons, hlib.Mon{Prop: "C15", Step: len(xs) - 1, Msg: fmt.Sprintf("in-process request with ContentLength %d and a body of %d bytes, over the limit %d: the handler was invoked and read %d bytes (status %d)", req.ContentLength, len(payload), cfg.maxReq, len(in.read), rec.Code)})
+			} else if !bytes.Equal(in.read, payload) || in.cl != int64(len(payload)) || len(in.te) != 0 {
+				mons = append(mons, hlib.Mon{Prop: "C06", Step: len(xs) - 1, Msg: fmt.Sprintf("in-process request with ContentLength %d and a body of %d bytes: the handler read %d bytes, saw ContentLength %d and TransferEncoding %v", req.ContentLength, len(payload), len(in.read), in.cl, in.te)})
+			}
 		}
 	}
 	return mons, true
